@@ -40,7 +40,27 @@ def behaviours():
     d = tlc(os.path.join(SPEC, "Catalog.tla"), os.path.join(SPEC, "mc", "Catalog_dev.cfg"), workers=1, timeout=900)
     if d["violated"] != "NoDangling":
         raise ToolError("Catalog.tla with Dev = {DanglingDrop} is not rejected: the model is vacuous")
+    r["proof"] = prove_core()
     return bs, r
+
+
+def prove_core():
+    """spec/proofs/CatalogCore.tla: the same actions for any set of names with a TLAPS proof that NoDangling is
+    inductive (what TLC checks for three names).  Checked from scratch in a scratch copy; a failing or missing prover
+    is a tool error, never a verdict."""
+    import shutil, subprocess, tempfile, re
+    d = tempfile.mkdtemp(prefix="tlaps-", dir=os.path.join(os.path.dirname(SPEC), "work"))
+    try:
+        shutil.copy(os.path.join(SPEC, "proofs", "CatalogCore.tla"), d)
+        p = subprocess.run(["timeout", "600", "tlapm", "--cleanfp", "--threads", "4", "CatalogCore.tla"], cwd=d,
+                           stdout=subprocess.PIPE, stderr=subprocess.STDOUT, text=True)
+        m = re.search(r"All (\d+) obligations? proved", p.stdout)
+        if not m:
+            log(p.stdout[-2000:])
+            raise ToolError("TLAPS does not prove spec/proofs/CatalogCore.tla")
+        return {"module": "CatalogCore", "obligations_proved": int(m.group(1))}
+    finally:
+        shutil.rmtree(d, ignore_errors=True)
 
 
 def catalog_part(seed, tier, v):
@@ -82,7 +102,7 @@ def catalog_part(seed, tier, v):
             plans.append((b, plan))
     outs = run_sharded("sql", runs, tag="c17cat", timeout=3000, case_timeout=60)
     stats = {"behaviours": len(bs), "replayed": 0, "statements": 0, "accepted_changes": 0, "refusals": 0,
-             "states": r["distinct"], "transitions": r["generated"]}
+             "states": r["distinct"], "transitions": r["generated"], "tlaps": r["proof"]}
     for run, (b, plan), out in zip(runs, plans, outs):
         if out.get("hang") or "fatal" in out:
             v.violation({"case": run, "out": {k: out[k] for k in out if k != "res"}},
